@@ -420,18 +420,30 @@ def run_to_run(ck, sh, mm, names):
                           '--attach-load=1,all,1', '--attach-load=1,all,2', '--attach-load=1,all,4', '--excitation-pulse=1'],
         'skin+ins': ['-f', '7', '-w', '2,0,0,0,1,0.1,0.2,0.001', '-w', '2,1,0.1,0.2,2,0.5,0.3,0.001',
                      '--skin-effect-conductivity=1e6', '--insulation-load=0.002,3,2', '--excitation-pulse=1'],
+        # the complete report with several print options (a set of strings: its order follows the per-process hash seed)
+        'report-options': ['-f', '7', '-w', '4,0,0,0,1,0.1,2,0.001', '--excitation-pulse=2', '--theta=10,40,2', '--phi=0,90,2',
+                           '--near-field=1,1,1,1,1,1,1,1,2', '--option=far-field', '--option=far-field-absolute', '--option=near-field'],
     }
     for name in names:
         argv = cases[name]
 
-        def fn(argv=argv):
+        def fn(argv=argv, name=name):
             shadow.set_state.sym_order = True
             try:
                 m = M.main(list(argv), return_mininec=True)
                 if not hasattr(m, 'as_cmdline'):
                     raise symx.HarnessError('main returned %r' % (m,))
+                report = ''
+                if name == 'report-options':
+                    shadow.set_state.sym_order = False
+                    m.compute()
+                    m.compute_far_field(M.Angle(10.0, 40.0, 2), M.Angle(0.0, 90.0, 2))
+                    m.compute_near_field([1.0, 1.0, 1.0], [1.0, 1.0, 1.0], [1, 1, 2])
+                    shadow.set_state.sym_order = True
+                    opts = M.__dict__['set'](('far-field', 'far-field-absolute', 'near-field'))
+                    report = m.as_mininec(opts)
                 return dict(inputs={}, text=m.as_cmdline(), text_geo=m.as_cmdline(load_by_geo=True),
-                            loads=m.loads_as_mininec())
+                            loads=m.loads_as_mininec() + report)
             finally:
                 shadow.set_state.sym_order = False
 
@@ -452,14 +464,18 @@ def run_to_run(ck, sh, mm, names):
             continue
         # candidate: replay = the same command line in fresh processes
         outs = set()
-        code = ("import sys; sys.path.insert(0, %r); from mininec.mininec import main; "
-                "m = main(%r, return_mininec=True); sys.stdout.write(m.as_cmdline())" % (shadow.REPO, list(argv)))
+        if name == 'report-options':
+            code = ("import sys; sys.path.insert(0, %r); from mininec.mininec import main; main(%r)" % (shadow.REPO, list(argv)))
+        else:
+            code = ("import sys; sys.path.insert(0, %r); from mininec.mininec import main; "
+                    "m = main(%r, return_mininec=True); sys.stdout.write(m.as_cmdline())" % (shadow.REPO, list(argv)))
         for i in range(12):
-            r = subprocess.run(['/venv/bin/python', '-c', code], capture_output=True, text=True, timeout=120)
+            env = dict(os.environ, PYTHONHASHSEED=str(i))          # fresh processes differ in their string-hash seed
+            r = subprocess.run(['/venv/bin/python', '-c', code], capture_output=True, text=True, timeout=120, env=env)
             outs.add(r.stdout)
         if len(outs) > 1:
-            v = ck.report_violation('C14:run-to-run:as_cmdline:set-order',
-                                    '%s: %d different option files from 12 runs of the same command line' % (name, len(outs)),
+            v = ck.report_violation('C14:run-to-run:report:set-order' if name == 'report-options' else 'C14:run-to-run:as_cmdline:set-order',
+                                    '%s: %d different %s from 12 runs of the same command line' % (name, len(outs), 'reports' if name == 'report-options' else 'option files'),
                                     dict(kind='run-to-run', argv=argv))
             ck.record(on, v, sample=sample)
         else:
@@ -471,7 +487,7 @@ def main(args):
     ck.shadow_stats = symx.load().stats
     parts = [('load_caches', (k, o)) for k, o in cache_combos(ck.tier)]
     parts += [('histories', ([sq],)) for sq in history_seqs(ck.tier)]
-    rnames = ['attach-2-of-3', 'attach-3-of-4', 'skin+ins'] if ck.tier == 'thorough' else ['attach-2-of-3', 'skin+ins']
+    rnames = ['attach-2-of-3', 'attach-3-of-4', 'skin+ins', 'report-options'] if ck.tier == 'thorough' else ['attach-2-of-3', 'skin+ins', 'report-options']
     parts += [('run_to_run', ([n],)) for n in rnames]
     parts += [('far_history', ('G14', 'one')), ('far_history', ('G7', 'radials'))]
     fseqs = [('c', 'c'), ('c', 'f2', 'c'), ('c', 'n', 'f2', 'c', 'n')]
